@@ -14,7 +14,7 @@ CHECKS = {
     "C02": "hv.checks.fsm", "C03": "hv.checks.fsm", "C07": "hv.checks.fsm", "C09": "hv.checks.fsm",
     "C10": "hv.checks.fsm", "C17": "hv.checks.fsm", "C18": "hv.checks.fsm",
     "C04": "hv.checks.fsm", "C05": "hv.checks.fsm", "C06": "hv.checks.fsm", "C20": "hv.checks.fsm",
-    "C08": "hv.checks.c08", "C11": "hv.checks.c11", "C12": "hv.checks.c12", "C13": "hv.checks.c13", "C14": "hv.checks.c13", "C01": "hv.checks.c01",
+    "C08": "hv.checks.c08", "C11": "hv.checks.c11", "C12": "hv.checks.c12", "C13": "hv.checks.c13", "C14": "hv.checks.c13", "C01": "hv.checks.c01", "C15": "hv.checks.c15", "C16": "hv.checks.c15", "C19": "hv.checks.c19",
 }
 
 
